@@ -10,6 +10,7 @@ mcCallsC == {}
 mcCallsS ==
   [op : {"data"}, sid : Sids, n : {1, 4, 10}, tag : {"A"}, es : {FALSE}, pad : {-1, 0, 2}]
   \cup [op : {"data"}, sid : {1}, n : {0}, tag : {"A"}, es : {TRUE}, pad : {-1}]
+  \cup [op : {"data"}, sid : {3, 5}, n : {0}, tag : {"A"}, es : {FALSE}, pad : {-1}]       \* nothing to send: on a live stream, on a never-used id
   \cup [op : {"inc"}, n : {3}, sid : {<<>>, <<1>>}]
   \cup [op : {"ack"}, n : {2, 4}, sid : {1, 3}]
   \cup [op : {"ack"}, n : {4}, sid : {5}]          \* a never-used stream id
@@ -18,6 +19,7 @@ mcAdvC == {}
 F_D(sid, n, es, pad) == [t |-> "DATA", sid |-> sid, es |-> es, n |-> n, tag |-> "B", pad |-> pad]
 mcAdvS ==
   {<<F_D(sid, n, FALSE, pad)>> : sid \in Sids, n \in {2, 4}, pad \in {-1, 1}}
+  \cup {<<F_D(1, 0, FALSE, 3)>>, <<F_D(3, 0, TRUE, 0)>>}       \* no payload, only padding: still flow-controlled octets
   \cup {<<[t |-> "WU", sid |-> sid, inc |-> n]>> : sid \in {0, 1}, n \in {5}}
   \cup {<<[t |-> "SET", ack |-> FALSE, s |-> <<<<4, v>>>>]>> : v \in {2, 20}}
   \cup {<<[t |-> "SET", ack |-> TRUE, s |-> <<>>]>>}
